@@ -21,7 +21,7 @@ RULE = ("(a) random streams of 1-80 tokens over each configuration's full vocabu
         "circle-of-fifths position; for tokenise streams also in-bar time = onset - start of its bar and non-decreasing times. "
         "Non-trivial: a note token after a clock-advancing token.")
 PLAN = {"quick": {"cases": 1200, "jobs": 4, "timeout": 900},
-        "thorough": {"cases": 60000, "jobs": 16, "timeout": 3000, "budget_s": 420}}
+        "thorough": {"cases": 600000, "jobs": 16, "timeout": 3000, "budget_s": 360}}
 FLOORS = {"quick": {"c19.note_tokens_checked": 10000, "#c19.flags.": 16, "c19.tokenise_streams": 300, "c19.random_streams": 600,
                     "c19.midbar_signature_token": 150, "c19.bar_token_in_partly_filled_bar": 150, "c19.bar_token_after_overshooting_rests": 12},
           "thorough": {"c19.note_tokens_checked": 500000, "#c19.flags.": 16}}
